@@ -61,6 +61,11 @@ _add(_c("lsn_orth_extrap", "LSN", [2, 2], [3, 4, 3], 1, "lsn", dict(orthogonal=T
 # ---- pairs for C16 (mirror images and field reversals) -----------------------------------
 _add(_c("m_lsn", "LSN", [2, 3], [3, 4, 5], 1, "lsn", dict(orthogonal=True), fpol="quad", wall="slanted"))
 _add(_c("m_usn", "USN", [2, 3], [5, 4, 3], 1, "lsn", dict(orthogonal=True), fpol="quad", wall="slanted", mirror=True))
+# ... with a different target spacing per leg (lower/upper option names exchanged in the mirror image: seed C16_usn_uses_lower_target_options)
+_add(_c("m_lsn_t", "LSN", [2, 3], [3, 4, 5], 1, "lsn", dict(orthogonal=True, target_inner_lower_poloidal_spacing_length=0.2, target_outer_lower_poloidal_spacing_length=0.45),
+        fpol="quad", wall="slanted"))
+_add(_c("m_usn_t", "USN", [2, 3], [5, 4, 3], 1, "lsn", dict(orthogonal=True, target_inner_upper_poloidal_spacing_length=0.2, target_outer_upper_poloidal_spacing_length=0.45),
+        fpol="quad", wall="slanted", mirror=True))
 _add(_c("m_ldn", "LDN", [2, 1, 2], [3, 3, 3, 3, 4, 3], 1, "ldn", dict(orthogonal=True, **DN), fpol="quad"))
 _add(_c("m_udn", "UDN", [2, 1, 2], [3, 3, 3, 3, 4, 3], 1, "ldn", dict(orthogonal=True, **DN), fpol="quad", mirror=True))
 _add(_c("r_base", "LSN", [2, 2], [3, 4, 3], 1, "lsn", dict(orthogonal=True), fpol="quad"))
@@ -78,7 +83,7 @@ _add(_c("r_gf_revbt", "LSN", [2, 2], [3, 4, 3], 1, "lsn", dict(orthogonal=True, 
 GFILE_GRIDS = ["r_gf_base", "r_gf_revcur", "r_gf_twopi", "r_gf_revbt"]
 # (m_ldn ny is mirrored below: region i of the mirrored double null is the mirror of region 4-i / 10-i)
 CONFIGS["m_udn"]["ny"] = [3, 3, 3, 3, 4, 3][2::-1] + [3, 3, 3, 3, 4, 3][:2:-1]
-C16_PAIRS = [("m_lsn", "m_usn", "mirror"), ("m_ldn", "m_udn", "mirror"), ("cdn_orth", "cdn_orth", "mirror"),
+C16_PAIRS = [("m_lsn", "m_usn", "mirror"), ("m_lsn_t", "m_usn_t", "mirror"), ("m_ldn", "m_udn", "mirror"), ("cdn_orth", "cdn_orth", "mirror"),
              ("r_base", "r_negpsi", "negpsi"), ("r_base", "r_revcur", "same"), ("r_base", "r_revbt", "revbt"), ("r_base", "r_twopi", "same"),
              ("rn_base", "rn_negpsi", "negpsi"),
              ("r_gf_base", "r_gf_revcur", "same"), ("r_gf_base", "r_gf_twopi", "same"), ("r_gf_base", "r_gf_revbt", "revbt"),
@@ -153,7 +158,12 @@ _add(_c("env_lim", "LIM", [3], [8], 1, None, dict(orthogonal=True)))
 _add(_c("env_closed_sep", "LSN", [2, 2], [3, 4, 3], 1, "closed", dict(orthogonal=True), fpol="quad"))
 # no toroidal field given (fpol1D = [], as the shipped tokamak_example.py does): Bt_axis is exactly zero and must still be in the file
 _add(_c("env_nofpol", "LSN", [2, 2], [3, 4, 3], 1, "lsn", dict(orthogonal=True)))
-ENVELOPE_QUICK = ["env_ny1", "env_g4", "env_nfine5", "env_len_small", "env_nx1", "env_closed_sep", "env_nofpol"]
+# a non-finite entry in a profile array given through the API: refused, or a file without undocumented NaNs (seed C12_jacobian_check_nan_blind)
+_add(_c("env_fpol_nan", "LSN", [2, 2], [3, 4, 3], 1, "lsn", dict(orthogonal=True), fpol="nan"))
+_add(_c("env_fpol_inf", "LSN", [2, 2], [3, 4, 3], 1, "lsn", dict(orthogonal=True), fpol="inf"))
+_add(_c("env_fpol_huge", "LSN", [2, 2], [3, 4, 3], 1, "lsn", dict(orthogonal=True), fpol="huge"))      # finite input, the metric overflows
+_add(_c("env_pressure_nan", "LSN", [2, 2], [3, 4, 3], 1, "lsn", dict(orthogonal=True), fpol="quad", pressure="nan"))
+ENVELOPE_QUICK = ["env_ny1", "env_g4", "env_nfine5", "env_len_small", "env_nx1", "env_closed_sep", "env_nofpol", "env_fpol_nan", "env_fpol_inf", "env_pressure_nan", "env_fpol_huge"]
 ENVELOPE = ENVELOPE_QUICK + ["env_sol_wide", "env_len_big", "env_core_deep", "env_cdn_second_inside", "env_nonorth_n50", "env_sepmult", "env_lim"]
 
 CORE_CAMPAIGN = ["lsn_orth", "usn_orth", "lsn_orth_rev", "lsn_nonorth", "lsn_nonorth_rev", "cdn_orth", "ldn_orth",
